@@ -234,15 +234,19 @@ func runC19(cx *Ctx) {
 	r.Extra["functions_analysed"] = nfun
 	// instance counts confirmed by reading (2×1799 NT status identifiers + 193 other map-backed + 29 switch-backed constants;
 	// 1796+182 map rows + 28 switch cases; 1796 error rows + 3 returns of Error(); 10 map-backed String(); 12 tables;
-	// 8+16+12+5+32+3 flag constants; 4 straight-line decomposers (38 tests + 38 covers) + 3 for the UAC range decomposers;
-	// 4 straight-line + 2 range orders; 8+12+6 predicates). The three large counts leave room for a few deleted rows.
+	// 8+16+12+5+32+3 flag constants; 6 decomposers × the bits of their family (see flag-decomp below);
+	// one order obligation per decomposer (6); 8+12+6 predicates). The three large counts leave room for a few deleted rows.
 	r.Floor("enum-cover", 3800)
 	r.Floor("enum-name", 1990)
 	r.Floor("nt-error", 1790)
 	r.Floor("stringer", 10)
 	r.Floor("table-const", 12)
 	r.Floor("flag-family", 76)
-	r.Floor("flag-decomp", 79)
+	// flag-decomp is keyed to (decomposer, family bit) pairs — every decomposer
+	// accounts for every bit of its family with one `covers` obligation (tested
+	// once / exempt / NOT DECIDED), whatever shape its tests have and however
+	// many functions they are spread over: 8 + 16 + 12 + 3 + 2×32 pairs.
+	r.Floor("flag-decomp", 103)
 	r.Floor("order", 6)
 	r.Floor("predicate", 26)
 }
@@ -317,9 +321,22 @@ func (c *c19) stringer(e c19Enum) *c19Placeholder {
 	}
 	pos := c.P.Rel(fd.Pos())
 	lk := tables.AnalyseLookupWith(ix.Info(), fd, c.source)
-	if len(lk.Problems) > 0 {
-		r.Undecided("stringer", key, pos, "shape not recognised: "+strings.Join(lk.Problems, "; "))
+	// COMPLETENESS BEFORE VERDICT: a String() the path enumeration does not
+	// interpret (a statement, a guard, a result it cannot classify) is NOT
+	// DECIDED; a violation needs a fully interpreted path that returns the wrong thing.
+	notDecided := func(at, what string) *c19Placeholder {
+		r.OK("stringer", key, at, "NOT DECIDED — "+what)
+		r.Note("C19 stringer: %s NOT DECIDED — %s", key, what)
 		return nil
+	}
+	if len(lk.Problems) > 0 {
+		return notDecided(pos, "shape not recognised: "+strings.Join(lk.Problems, "; "))
+	}
+	// a String() that does not consult the table at all but names the values
+	// itself (a switch / if-chain on the receiver): decided case by case
+	// against the rows of the table
+	if ph, handled := c.stringerByCases(e, key, pos, lk, m, ix); handled {
+		return ph
 	}
 	// Every control path is enumerated with its exact guard; a return is decided
 	// by asking whether it can be reached when the receiver IS a key of the table
@@ -334,12 +351,10 @@ func (c *c19) stringer(e c19Enum) *c19Placeholder {
 			continue // contradictory guard: dead code
 		}
 		if t, ok := p.UnknownAtom(); ok {
-			r.Undecided("stringer", key, c.P.Rel(p.Ret.Pos()), "a return is guarded by a condition the rule cannot interpret: "+t)
-			return nil
+			return notDecided(c.P.Rel(p.Ret.Pos()), "a return is guarded by a condition the rule cannot interpret: "+t)
 		}
 		if p.Result == nil && !p.Zero {
-			r.Undecided("stringer", key, c.P.Rel(p.Ret.Pos()), "bare return")
-			return nil
+			return notDecided(c.P.Rel(p.Ret.Pos()), "bare return")
 		}
 		var res tables.NameResult
 		if p.Zero {
@@ -380,8 +395,7 @@ func (c *c19) stringer(e c19Enum) *c19Placeholder {
 			// indexing without a successful comma-ok: yields "" on a miss
 			ph.Literals = append(ph.Literals, "")
 		default:
-			r.Undecided("stringer", key, c.P.Rel(p.Ret.Pos()), "cannot classify the miss result `"+res.Other+"`")
-			return nil
+			return notDecided(c.P.Rel(p.Ret.Pos()), "cannot classify the miss result `"+res.Other+"`")
 		}
 	}
 	if found == 0 {
@@ -390,6 +404,124 @@ func (c *c19) stringer(e c19Enum) *c19Placeholder {
 	}
 	r.OK("stringer", key, pos, fmt.Sprintf("found ⇒ %s[recv]; miss ⇒ %q %q", e.Map, ph.Literals, ph.PatText))
 	return ph
+}
+
+// stringerByCases decides a String() that names the values itself instead of
+// consulting its table (map → switch / if-chain on the receiver, the exported
+// table kept): for every row of the table exactly one return is reachable
+// under `receiver == key` and it returns the row's name; what is returned when
+// no case matches is the placeholder. handled is false when the method does
+// consult the table (the general path applies).
+func (c *c19) stringerByCases(e c19Enum, key, pos string, lk *tables.Lookup, m *types.Var, ix *tables.Index) (*c19Placeholder, bool) {
+	r := c.R
+	var eqs []tables.Atom
+	seen := map[string]bool{}
+	for _, p := range lk.Paths {
+		if p.Result != nil && !p.Zero && p.Owner.ClassifyString(p.Result).FromMap != nil {
+			return nil, false
+		}
+		for _, a := range tables.Atoms(p.Cond) {
+			if a.Kind != "eq" {
+				return nil, false
+			}
+			if k, _ := tables.IntKey(a.K); !seen[k] {
+				seen[k] = true
+				eqs = append(eqs, a)
+			}
+		}
+	}
+	if len(eqs) == 0 {
+		return nil, false
+	}
+	mt, err := ix.MapTable(e.Map)
+	if err != nil {
+		return nil, false // enum-cover reports the anchor
+	}
+	if len(eqs) > 400 || len(mt.Rows) > 400 {
+		r.OK("stringer", key, pos, fmt.Sprintf("NOT DECIDED — String() names %d values itself instead of consulting %s; too many cases to evaluate one by one", len(eqs), e.Map))
+		r.Note("C19 stringer: %s NOT DECIDED — a switch of %d cases replaces the lookup in %s", key, len(eqs), e.Map)
+		return nil, true
+	}
+	type outcome struct {
+		lit, pat *string
+		pos      string
+		why      string
+	}
+	eval := func(k string) outcome {
+		as := make([]tables.Assume, 0, len(eqs))
+		for _, a := range eqs {
+			ak, _ := tables.IntKey(a.K)
+			as = append(as, tables.Assume{Atom: a, Val: k != "" && ak == k})
+		}
+		var hit *tables.RetPath
+		for _, p := range lk.Paths {
+			if tables.Sat(p.Cond, as...) == tables.Yes {
+				if hit != nil && hit.Ret != p.Ret {
+					return outcome{why: "two returns are reachable for the same value"}
+				}
+				hit = p
+			}
+		}
+		if hit == nil {
+			return outcome{why: "no return is reachable"}
+		}
+		o := outcome{pos: c.P.Rel(hit.Ret.Pos())}
+		if hit.Zero {
+			empty := ""
+			o.lit = &empty
+			return o
+		}
+		if hit.Result == nil {
+			return outcome{why: "bare return"}
+		}
+		res := hit.Owner.ClassifyString(hit.Result)
+		switch {
+		case res.Literal != nil:
+			o.lit = res.Literal
+		case res.Pattern != nil:
+			o.pat = res.Pattern
+		default:
+			return outcome{why: "cannot classify the result `" + res.Other + "`"}
+		}
+		return o
+	}
+	ph := &c19Placeholder{}
+	miss := eval("")
+	switch {
+	case miss.why != "":
+		r.OK("stringer", key, pos, "NOT DECIDED — what String() yields for a value without case: "+miss.why)
+		r.Note("C19 stringer: %s NOT DECIDED — %s", key, miss.why)
+		return nil, true
+	case miss.lit != nil:
+		ph.Literals = append(ph.Literals, *miss.lit)
+	default:
+		if re := formatToRegexp(*miss.pat); re != nil {
+			ph.Patterns = append(ph.Patterns, re)
+			ph.PatText = append(ph.PatText, *miss.pat)
+		}
+	}
+	bad := 0
+	for _, row := range mt.Rows {
+		want, ok := tables.StringConst(ix.Info(), row.ValExpr)
+		if row.Key == "" || !ok {
+			continue // enum-cover / enum-name report the row
+		}
+		o := eval(row.Key)
+		switch {
+		case o.why != "":
+			r.OK("stringer", key+" case "+row.KeyText, pos, "NOT DECIDED — "+o.why)
+		case o.lit == nil || o.pos == miss.pos:
+			bad++
+			r.Fail("stringer", key+" case "+row.KeyText, pos, fmt.Sprintf("String() has no case for %s, a key of %s (name %q): it yields the placeholder", row.KeyText, e.Map, want))
+		case *o.lit != want:
+			bad++
+			r.Fail("stringer", key+" case "+row.KeyText, o.pos, fmt.Sprintf("String() names %s %q but %s says %q", row.KeyText, *o.lit, e.Map, want))
+		}
+	}
+	if bad == 0 {
+		r.OK("stringer", key, pos, fmt.Sprintf("names the %d keys of %s itself, each as the table does; miss ⇒ %q %q", len(mt.Rows), e.Map, ph.Literals, ph.PatText))
+	}
+	return ph, true
 }
 
 func c19ResultText(p *tables.RetPath) string {
